@@ -15,8 +15,10 @@ MATCHERS = {}
 def regen_leaves():
     """CmGen/Leaves.lean: the numeric functions of the source as they read now (the `source_*` theorems of
     CmProps/C06tie.lean identify them with the model)"""
-    from translate import leaves, parsersrc
+    from translate import leaves, parsersrc, api, convstr
     leaves.generate()
+    convstr.generate()          # CmGen/ConvStr.lean: rgb_to_hex, rgbint_to_string (and the hsl/hsla/rgba converters) as they read now (CmProps/C06conv.lean)
+    api.generate()              # CmGen/Api.lean: the result part of ColorPair.make_readable as it reads now (CmProps/C06api.lean)
     parsersrc.generate()        # CmGen/ParserSrc.lean: detect_color_format, format_color, the string branch of parse_color_to_rgb (CmProps/C06fmt.lean)
 
 
